@@ -70,11 +70,20 @@ class Ctx:
                                 "coverage_zero": sorted(a for a, (d, n) in r.coverage.items() if n == 0)})
         return r
 
-    def generate(self, module, cfg, tag="BEH", **kw):
-        """Run a Gen_* spec that prints <<"TAG", ToJson(hist)>> lines; returns the list."""
+    def generate(self, module, cfg, tag="BEH", limit=None, **kw):
+        """Run a Gen_* spec that prints "TAG <json>" lines; returns the de-duplicated list
+        (TLC's simulator may print a behaviour more than once), cut to `limit`."""
         kw.setdefault("workers", 1)
         r = self.model(module, cfg, **kw)
-        out = r.prints.get(tag, [])
+        out = []
+        seen = set()
+        for b in r.prints.get(tag, []):
+            key = json.dumps(b, sort_keys=True)
+            if key not in seen:
+                seen.add(key)
+                out.append(b)
+        if limit is not None:
+            out = out[:limit]
         self.log("generated %d %s from %s/%s (%d states, %.1fs)" % (len(out), tag, module, os.path.basename(cfg), r.distinct, r.wall))
         if not out:
             raise Machinery("generator %s/%s produced no %s lines\n%s" % (module, cfg, tag, r.out[-2000:]))
